@@ -143,7 +143,12 @@ func clusterOp(out *bufio.Writer, op string, raw []byte, scratch string) bool {
 		curCluster = c
 		for _, i := range line.Start {
 			c.startNode(i)
-			c.nodes[i].VerifNodeSettle(8 * time.Second)
+			if line.Nodes == 1 {
+				// a single node is not a cluster: all peers are started at once
+				c.nodes[i].VerifSettle(8 * time.Second)
+			} else {
+				c.nodes[i].VerifNodeSettle(8 * time.Second)
+			}
 		}
 		res["addrs"] = c.addrs
 	case "cstart":
